@@ -218,6 +218,24 @@ def c10_call(crit, tol, thr, old, old_n, nom, nom_n, obj=None):
                     np.array(nom, dtype=min_safe_uint(nom_n)), old_n, nom_n))
 
 
+def c10_exact_violation(crit, thr, new, new_n, accepted):
+    """`acceptance implies statistic >= threshold` against the EXACT statistic of the merged cluster
+    (rational arithmetic on the column counts; nothing of the implementation is used)"""
+    from fractions import Fraction
+    if not accepted or new_n < 2 or crit == "never-merge":
+        return None
+    if sum(new) == 0:
+        return None
+    import oracles_hist
+    exact = oracles_hist.exact_rcompl(new, new_n) if "radius" in crit else oracles_hist.exact_isim(new, new_n)
+    if exact is None:
+        return None
+    if float(exact) < thr - 1e-9:
+        return (f"{crit} accepted at threshold {thr!r} but the exact statistic of the merged cluster "
+                f"(n = {new_n}, column counts {new[:6]}{'...' if len(new) > 6 else ''}) is {float(exact)!r}")
+    return None
+
+
 def c10_violation(case, history=()):
     """Laws of C10 on the real callables for one argument tuple; `history` is a list of
     earlier argument tuples fed to the same object first (purity)."""
@@ -239,6 +257,9 @@ def c10_violation(case, history=()):
     sv = float(stat(new, new_n))
     if fresh and sv == sv and sv < thr:
         return f"accepted although statistic {sv!r} < threshold {thr!r}"
+    ev = c10_exact_violation(crit, thr, [int(x) for x in new], new_n, fresh)
+    if ev:
+        return ev
     if fresh:
         for t2 in (thr / 2, 0.0, float(np.nextafter(thr, -1.0))):
             if t2 <= thr and not c10_call(crit, tol, t2, old, old_n, nom, nom_n):
